@@ -224,8 +224,36 @@ RowComplaint(r) ==
              "struct tags give " \o ToString([k |-> t.k, lb |-> IF "lb" \in DOMAIN t THEN t.lb ELSE [has |-> FALSE], ub |-> t.ub, ext |-> t.ext])
              \o " but TS 38.413 defines " \o ToString(r)
 
+\* generic rule: an ENUMERATED type always has a root with a known number of values, so every ENUMERATED component of every type of
+\* the dictionary must carry a value bound (without one the library can neither encode nor decode the component)
+RECURSIVE Unbounded(_, _)
+Unbounded(t, path) ==
+   CASE t.k = "enum" -> IF t.ub.has THEN {} ELSE {path}
+     [] t.k = "seq" -> UNION {Unbounded(t.fields[i].t, path \o "." \o t.fields[i].name) : i \in 1..Len(t.fields)}
+     [] t.k = "seqof" -> Unbounded(t.t, path \o "[]")
+     [] t.k \in {"choice", "open"} -> UNION {Unbounded(t.alts[i].t, path \o "." \o t.alts[i].name) : i \in 1..Len(t.alts)}
+     [] OTHER -> {}
+UnboundedAll == UNION {Unbounded(NgapTypes[k], NameOf(k)) : k \in DOMAIN NgapTypes}
+\* components defined inline in TS 38.413 (no named type of their own): <<type, field, number of root values - 1, extensible>>
+Inline == << <<"AssociatedQosFlowItem", "QosFlowMappingIndication", 1, TRUE>> >>     \* ENUMERATED {ul, dl, ...}
+InlineComplaint(r) ==
+   LET keys == KeysOf(r[1]) IN
+   IF keys = {} THEN "absent"
+   ELSE LET k == CHOOSE x \in keys : TRUE
+            fs == NgapTypes[k].fields
+            I == {i \in 1..Len(fs) : fs[i].name = r[2]} IN
+        IF I = {} THEN "absent"
+        ELSE LET t == fs[CHOOSE i \in I : TRUE].t IN
+             IF t.k = "enum" /\ t.ub.has /\ t.ub.n = r[3] /\ t.ext = r[4] THEN "ok"
+             ELSE "struct tags give " \o ToString(t) \o " but TS 38.413 defines an ENUMERATED with " \o ToString(r[3] + 1) \o " root values, extensible " \o ToString(r[4])
 Init == l = 1 /\ bad = 0
 Next == /\ l <= Len(Rows)
+        /\ (IF l = 1
+            THEN /\ \A u \in UnboundedAll : PrintT("REJECT line=0 id=" \o u \o " ev=Tag why=C03: " \o u \o ": ENUMERATED component without a value bound in its struct tag (the library refuses to encode it and cannot decode it)")
+                 /\ \A i \in 1..Len(Inline) : LET c == InlineComplaint(Inline[i]) IN
+                       IF c \in {"ok", "absent"} THEN TRUE
+                       ELSE PrintT("REJECT line=0 id=" \o Inline[i][1] \o "." \o Inline[i][2] \o " ev=Tag why=C03: " \o Inline[i][1] \o "." \o Inline[i][2] \o ": " \o c)
+            ELSE TRUE)
         /\ LET c == RowComplaint(Rows[l]) IN
              /\ (IF c \in {"ok", "absent"} THEN TRUE
                  ELSE PrintT("REJECT line=" \o ToString(l) \o " id=" \o Rows[l][1] \o " ev=Tag why=C03: " \o Rows[l][1] \o ": " \o c))
